@@ -310,6 +310,9 @@ func (s *subsetter) SubsetGsub(old *gtab.Info) *gtab.Info {
 						sNew.Repl = append(sNew.Repl, ligs)
 					}
 				}
+				if len(sNew.Cov) > 0 {
+					tNew.Subtables = append(tNew.Subtables, &sNew)
+				}
 			case *gtab.Gsub8_1:
 				panic("not implemented")
 			case *gtab.SeqContext1:
